@@ -57,6 +57,7 @@ theorem runTop_exit {s : St} (h : ExitInv s) (ht : taskPhase s.phase = true) : E
       · intro hh; simp [hx] at hh
       · intro hh; simp [hx] at hh
     · exact ⟨h1, h2, h3, h4, h5, h6, h7⟩
+    · split <;> exact ⟨h1, h2, h3, h4, h5, h6, h7⟩
     · exact ⟨h1, h2, h3, h4, h5, h6, h7⟩
 
 theorem stepLoop_exit {s : St} (hf : FifoInv s) (h : ExitInv s) : ExitInv (stepLoop s) := by
@@ -99,7 +100,7 @@ theorem step_exit {s : St} (k : Nat) (h : FifoInv s ∧ ExitInv s) : FifoInv (st
 theorem run_exit {s : St} (sched : List Nat) (hf : FifoInv s) (h : ExitInv s) : ExitInv (run s sched) :=
   (run_invariant (P := fun s => FifoInv s ∧ ExitInv s) (fun _ k h => step_exit k h) ⟨hf, h⟩ sched).2
 
-theorem init_exit (elt wl : Bool) (tbl) (pre) (progs) : ExitInv (init elt wl tbl pre progs) := by
+theorem init_exit (elt wl : Bool) (tbl) (dtbl) (pre) (progs) : ExitInv (init elt wl tbl dtbl pre progs) := by
   cases elt <;> (refine ⟨?_, ?_, ?_, ?_, ?_, ?_, ?_⟩ <;> simp [init, exited])
 
 end MuduoVerif.Loop
